@@ -135,6 +135,11 @@ def case_out_buffers(rep):
     return fn
 
 
+POTENTIALS = {"ThreeFieldVariation(NeoHooke)": None, "ThreeFieldVariation(NeoHookeCompressible)": None,
+              "NearlyIncompressible(NeoHooke)": lambda J, K: K / 2 * (J - 1) ** 2,
+              "NearlyIncompressible(NeoHooke,U=K/2 ln^2 J)": lambda J, K: K / 2 * np.log(J) ** 2}
+
+
 def case_mixed(which, rep):
     def fn(run):
         import felupe as fem
@@ -182,6 +187,27 @@ def case_mixed(which, rep):
             sv[[0, 3, 5]] = 1.0
             sv = np.asarray(ve.gradient([batch_F(rng, batch, lo=0.85, hi=1.25), sv])[-1], float)
         MM.check_mixed_blocks(run, which, um, F, p, J, sv)
+        # the three gradient components are the first derivatives of the documented potential (built here from the energy the inner law
+        # exposes): W = psi(F) + U(J) + p (det F - J) resp. W = psi((J / det F)^(1/3) F) + p (det F - J). The block clause above would not see
+        # a gradient and a hessian that are wrong together.
+        inner = getattr(um, "material", None)
+        if sv is None and inner is not None and hasattr(inner, "function") and which.split("[")[0] in POTENTIALS:
+            Uvol = POTENTIALS[which.split("[")[0]]
+            detf = lambda G: np.linalg.det(np.moveaxis(G, (0, 1), (-2, -1)))
+            pp, JJ = np.asarray(p, float).reshape(batch), np.asarray(J, float).reshape(batch)
+
+            def W(G, p_, J_):
+                if which.startswith("ThreeFieldVariation"):
+                    return np.asarray(inner.function([G * (J_ / detf(G)) ** (1 / 3), None])[0], float).reshape(batch) + p_ * (detf(G) - J_)
+                return np.asarray(inner.function([G, None])[0], float).reshape(batch) + Uvol(J_, bulk) + p_ * (detf(G) - J_)
+            g0, g1, g2 = [np.asarray(a, float) for a in um.gradient([F, p, J, None])[:3]]
+            sP = max(maxabs(g0), 1e-300)
+            for nm, got, fd, sc in (("F", g0, lambda h: MM.fd_wrt_F(lambda G: W(G, pp, JJ), F, h), sP),
+                                    ("p", g1.reshape(batch), lambda h: (W(F, pp + h, JJ) - W(F, pp - h, JJ)) / (2 * h), 1.0),
+                                    ("J", g2.reshape(batch), lambda h: (W(F, pp, JJ + h) - W(F, pp, JJ - h)) / (2 * h), sP)):
+                MM.judge_fd(run, "material.derivatives", "model=%s clause=mixed-gradient-d%s-of-potential" % (which, nm),
+                            "%s: the gradient component d/d%s is not the derivative of the documented potential" % (which, nm), got, fd, sc,
+                            which + ":potential", config=which + " potential " + nm)
         if which == "ThreeFieldVariation(NeoHooke)":
             # hessian(out=previous result): the buffer SolidBody hands back on every iteration
             H0 = [None if a is None else np.array(a) for a in um.hessian([F, p, J, None])]
@@ -428,7 +454,7 @@ def _required():
     req += [w + ":hessian" for w in SMALL] + ["Laplace:gradient"]
     for n in ("NeoHooke(mu,bulk)", "NeoHooke(mu)", "Volumetric(bulk)", "NeoHookeCompressible(mu,lmbda)", "NeoHookeCompressible(mu)"):
         req += ["out:%s:gradient" % n, "out:%s:hessian" % n]
-    req += ["out:holds-result", "out:NearlyIncompressible:hessian"]
+    req += ["out:holds-result", "out:NearlyIncompressible:hessian", "ThreeFieldVariation(NeoHooke):potential", "NearlyIncompressible(NeoHooke):potential"]
     req += ["VolumeChange:hessian", "VolumeChange[parallel]:hessian", "AreaChange:gradient", "AreaChange[N]:gradient", "AreaChange[N][parallel]:gradient",
             "LineChange:gradient", "NeoHooke(mu,bulk)[parallel]:hessian", "tt.yeoh[parallel]:hessian", "NeoHooke(mu,bulk)[2x2]:hessian",
             "NeoHookeCompressible(mu,lmbda)[F=I]:hessian", "Laplace[1x3]:hessian", "OgdenRoxburgh(NeoHooke(mu))[unloading]:hessian", "OgdenRoxburgh(NeoHooke)[weak softening]:hessian",
